@@ -520,13 +520,19 @@ class Generator:
         toks = self.rng.sample(pref, min(len(pref), self.rng.choice([1, 1, 2])))
         if self.rng.random() < 0.15:
             toks = self.rng.sample(vis, 1)
+        add = self.rng.random() < 0.2
+        if add:
+            # grouping twice by the same column is not documented either way: not generated
+            toks = [t for t in toks if t not in pt.m.grouping]
+            if not toks:
+                return None
         cols = []
         for t in toks:
             a = self.maybe_oos(pt) or self.refarg(pt, t, allow_str=True)
             if a is None:
                 return None
             cols.append(a)
-        return {"op": "group_by", "t": pt.id, "cols": cols, "add": self.rng.random() < 0.2}
+        return {"op": "group_by", "t": pt.id, "cols": cols, "add": add}
 
     def g_ungroup(self):
         pt = self.pick_table(lambda p: bool(p.m.grouping))
